@@ -942,6 +942,19 @@ def shrink_session(case, msg):
     return cur
 
 
+SLUGS = [("implementation crashed", "crash"), ("reading the public tables twice", "unstable-reads"),
+         ("a root that is not an element was accepted", "bad-root-accepted"), ("valid root rejected", "valid-root-rejected"),
+         ("no starting element given", "drawn-root"), ("parent/children tables have the wrong length", "table-length"),
+         ("the root has a parent", "root-has-parent"), ("reached element", "reached-without-parent"),
+         ("tree edge", "inadmissible-edge"), ("parents of", "cycle-or-dangling"), ("is at depth", "depth-not-hop-distance"),
+         ("outside the root's component", "parent-outside-component"), ("children[", "children-not-inverse"),
+         ("traverse(", "traverse"), ("tree edges for", "edge-count"), ("edge list", "edge-list"),
+         ("trees /", "tree-count"), ("forest.roots", "forest-roots"), ("two roots", "roots-same-component"),
+         ("tree rooted at", "forest-tree"), ("elements not covered", "cover"), ("forest.edges", "forest-edges"),
+         ("forest.traverse", "forest-traverse"), ("an edge is listed twice", "duplicate-edge"),
+         ("the edge list does not span", "not-spanning"), ("edges for", "not-a-forest")]
+
+
 def classify(case, msg):
     """finding key: call site (operation, element kind), input class (exclusions / avoid_boundary / scenario / repeated
     compute / kind of root) and mechanism (which clause of the sentence fails)"""
